@@ -204,7 +204,15 @@ class HistoryRunner:
             return dict(kind=kind, targets=[u])
         if kind == "replace_last":
             if not self.live_uids(b):
-                return None
+                if not op.get("empty_ok"):
+                    return None
+                # there is no newest event to replace: refused (memory, peewee) or a silent no-op (sqlite) - either way it is a
+                # write call, and whatever it does must obey the rules for writes
+                try:
+                    bk.replace_last(mk_event(op["ev"]))
+                    return dict(kind=kind, on_empty=True)
+                except Exception as ex:  # noqa: BLE001
+                    return dict(kind=kind, on_empty=True, raised=type(ex).__name__)
             bk.replace_last(mk_event(op["ev"]))
             return dict(kind=kind)
         if kind == "delete":
